@@ -47,6 +47,16 @@ def block_split_ok(ctx, t, qn):
     return True, ""
 
 
+def is_unique_of(t, labels):
+    """t denotes the sorted unique block ids of `labels`: np.unique(labels) or element 0 of np.unique(labels, return_*=True)"""
+    if t[0] == "call" and callee(t) == "numpy.unique" and t[2] and t[2][0] == labels:
+        extra = [k for k, v in t[3] if k in ("return_counts", "return_index", "return_inverse") and v != const(False)]
+        return not extra
+    if t[0] == "sub" and t[2] == const(0) and t[1][0] == "call" and callee(t[1]) == "numpy.unique" and t[1][2] and t[1][2][0] == labels:
+        return any(k in ("return_counts", "return_index", "return_inverse") and v == const(True) for k, v in t[1][3])
+    return False
+
+
 def preimage(ctx, t, qn):
     """(ok, selector, why): t == np.where(np.isin(labels, block_ids[S]))[0]"""
     if not (t[0] == "sub" and t[2] == const(0) and t[1][0] == "call" and callee(t[1]) == "numpy.where" and len(t[1][2]) == 1):
@@ -69,10 +79,9 @@ def preimage(ctx, t, qn):
     okb, whyb = block_split_ok(ctx, labels[1], qn)
     if okb is not True:
         return okb, None, whyb
-    uniq = ("call", ("glob", "numpy.unique"), (labels,), (), 0)
-    if sel[0] == "sub" and canon(sel[1]) == canon(uniq):
+    if sel[0] == "sub" and is_unique_of(sel[1], labels):
         return True, sel[2], ""
-    if sel[0] == "elem" or (sel[0] == "sub" and sel[1][0] == "call" and callee(sel[1]) == "builtins.next") or not any(canon(x) == canon(uniq) for x in walk(sel)):
+    if sel[0] == "elem" or (sel[0] == "sub" and sel[1][0] == "call" and callee(sel[1]) == "builtins.next") or not any(is_unique_of(x, labels) for x in walk(sel)):
         return False, sel, "test points are selected by positions (%s), not by block ids" % show(sel)[:60]
     return None, sel, "selector %s" % show(sel)[:60]
 
@@ -174,7 +183,10 @@ def r3_folds(ctx):
         for x in walk(yt):
             if x[0] == "sub" and x[2] == const(1) and x[1][0] == "call" and callee(x[1]) == "verde.coordinates.block_split":
                 labels = x
-        uniq = ("call", ("glob", "numpy.unique"), (labels,), (), 0) if labels else None
+        uniq = None
+        if labels is not None:
+            cands = [x for x in walk(yt) if is_unique_of(x, labels)]
+            uniq = cands[0] if cands else ("call", ("glob", "numpy.unique"), (labels,), (), 0)
         ok, why = None, ""
         if folds is not None and uniq is not None:
             if kind == "balanced":
@@ -185,6 +197,12 @@ def r3_folds(ctx):
                     parts = Q.arg(ctx, pts, "parts") if pbs else None
                     sizes = Q.arg(ctx, pts, "array") if pbs else None
                     sz_ok = None
+                    if isinstance(sizes, tuple) and sizes[0] == "sub" and sizes[2] == const(1) and sizes[1][0] == "call" and callee(sizes[1]) == "numpy.unique" \
+                            and sizes[1][2] and sizes[1][2][0] == labels and kw(sizes[1], "return_counts") == const(True):
+                        shuffled = any(e.kind == "call" and callee(e.data[0]) == ".shuffle" for e in p.events)
+                        sz_ok = False if shuffled else True
+                        if shuffled:
+                            why = "block sizes come from np.unique(..., return_counts=True) (sorted-id order) but the block ids were shuffled afterwards: sizes[i] no longer counts block_ids[i]"
                     if isinstance(sizes, tuple) and sizes[0] == "comp":
                         el = sizes[2]
                         sz_ok = sizes[3] == uniq or canon(sizes[3]) == canon(uniq)
@@ -195,7 +213,7 @@ def r3_folds(ctx):
                     elif pbs and parts is not None and parts != Q.self_attr("n_splits") and (is_const(parts) or Q.is_self_attr(parts)):
                         ok, why = False, "partition_by_sum is asked for %s parts instead of self.n_splits" % show(parts)
                     elif pbs and sz_ok is False:
-                        ok, why = False, "block sizes are not counted per block id"
+                        ok, why = False, why or "block sizes are not counted per block id"
                 elif folds[0] == "comp":
                     ok, why = False, "balance=True does not use partition_by_sum"
             else:
@@ -310,7 +328,7 @@ def r6_rng(ctx):
             good = r[0] == "call" and callee(r) in ("sklearn.utils.check_random_state", "sklearn.utils.validation.check_random_state") and r[2] == (Q.self_attr("random_state"),)
             okk = True if good and okk is not False else (False if r[0] == "call" and r[2] and is_const(r[2][0]) else okk)
             tgt = sh[0][2][0] if sh[0][2] else None
-            fresh = tgt is not None and tgt[0] == "call" and callee(tgt) == "numpy.unique"
+            fresh = tgt is not None and ((tgt[0] == "call" and callee(tgt) == "numpy.unique") or (tgt[0] == "sub" and tgt[1][0] == "call" and callee(tgt[1]) == "numpy.unique"))
             ctx.check("R6", qn + "|shuffles-its-own-array", True if fresh else None, "the shuffled array is the freshly computed block id array", fn=qn)
         else:
             okk = False
